@@ -362,7 +362,11 @@ example : ∀ fix, (reach (cfgOf fix) eofMidReply).cstage = .finished ∧
     libTasks.all (fun t => !alive ((reach (cfgOf fix) eofMidReply).status t)) = true := by decide
 example : ∀ fix, (reach (cfgOf fix) cancelled).trace = [.write .login, .tclose, .cbEnter, .cbExit, .ret 1 .cancelled] := by decide
 example : ∀ fix, (reach (cfgOf fix) cancelledLate).trace = [.write .login, .tclose, .cbEnter, .cbExit, .ret 1 .cancelled] := by decide
-example : ∀ fix, (reach (cfgOf fix) cancelledLate).lost = [0] := by decide
+/-- the acceptance held for the cancelled `login()` is not lost: it is back in front of the (closed) queue, readable by
+    `receive_msg_nowait()` before the end-of-queue error -/
+example : ∀ fix, (reach (cfgOf fix) cancelledLate).lost = [] ∧ (reach (cfgOf fix) cancelledLate).queue = [0] := by decide
+example : ∀ fix, (reach (cfgOf fix) (cancelledLate ++ [.callRecvNowait 2, .callRecvNowait 3])).trace =
+    [.write .login, .tclose, .cbEnter, .cbExit, .ret 1 .cancelled, .ret 2 (.msg 0), .ret 3 .eoq] := by decide
 example : ∀ fix, (reach (cfgOf fix) acceptedThenLost).trace = [.write .login, .loginReply 0] ∧
     (reach (cfgOf fix) acceptedThenLost).closed = true ∧ (reach (cfgOf fix) acceptedThenLost).status .L = .absent := by decide
 /-- the hypotheses of `C11_any_other_reply_refused` are satisfiable: a rejection, and an acceptance on a closing session -/
